@@ -214,6 +214,11 @@ pub struct KeyCase {
     pub av1: Av1Frame,
     pub vp9: Vp9Key,
     pub second_frame: bool,
+    /// before the keyframe under test, submit a DIFFERENT keyframe in a call that must be rejected for a reason unrelated to its
+    /// configuration (1: composition offset beyond 32 bits, 2: NaN timestamp, 3: negative timestamp, 4: keyframe flag false);
+    /// the record must describe the first ACCEPTED keyframe
+    #[serde(default)]
+    pub rejected_first: u8,
 }
 
 pub fn eval_key(c: &KeyCase) -> Outcome {
@@ -308,7 +313,41 @@ pub fn eval_key(c: &KeyCase) -> Outcome {
         o.nontrivial = false;
         return o;
     }
-    let mut ops = vec![COp::Video { pts: 0.0, data: frame.clone(), key: true }];
+    let mut ops = Vec::new();
+    if c.rejected_first % 5 != 0 && frame.len() > 8 {
+        // same structure, different parameter-set / header bytes
+        let other: Vec<u8> = match codec {
+            0 | 1 => {
+                let fr = AnnexBFrame { nals: c.nals.clone(), lead_zeros: 0, trail_zeros: 0 };
+                fr.build(codec == 1, tag ^ 0x0f0f_0000_0000).0
+            }
+            2 => {
+                let mut f2 = c.av1.clone();
+                if let Some(s) = f2.seq.as_mut() {
+                    s.ops.iter_mut().for_each(|o| o.level = (o.level + 3) & 31);
+                    s.reduced_level = (s.reduced_level + 3) & 31;
+                    s.w_m1 ^= 1;
+                }
+                f2.build(tag).0
+            }
+            _ => {
+                let mut k = c.vp9.clone();
+                k.profile = (k.profile + 1) & 3;
+                k.color = Some((0x23, Some(1)));
+                k.render = None;
+                k.build(tag).0
+            }
+        };
+        ops.push(match c.rejected_first % 5 {
+            1 => COp::VideoDts { pts: 30000.0, dts: 1.0, data: other, key: true },
+            2 => COp::Video { pts: f64::NAN, data: other, key: true },
+            3 => COp::Video { pts: -1.0, data: other, key: true },
+            _ => COp::Video { pts: 0.0, data: other, key: false },
+        });
+        o.class("rejected_call_before_first_keyframe");
+    }
+    let first_idx = ops.len();
+    ops.push(COp::Video { pts: 0.0, data: frame.clone(), key: true });
     if c.second_frame {
         // a later keyframe with different parameter sets must not replace the configuration
         let mut later = frame.clone();
@@ -327,8 +366,14 @@ pub fn eval_key(c: &KeyCase) -> Outcome {
         o.aborted_by_panic = Some(p.clone());
         return o;
     }
-    if !run.results[0].is_ok() {
-        o.class(&format!("first_keyframe_rejected(C04):{}", run.results[0].short()));
+    if first_idx == 1 && run.results[0].is_ok() {
+        // the deliberately illegal call was accepted: C04's business; the "first keyframe" is then a different one
+        o.class("illegal_first_call_accepted(C04)");
+        o.nontrivial = false;
+        return o;
+    }
+    if !run.results[first_idx].is_ok() {
+        o.class(&format!("first_keyframe_rejected(C04):{}", run.results[first_idx].short()));
         o.nontrivial = false;
         return o;
     }
@@ -419,9 +464,9 @@ fn key_strategy(codec: Option<u8>) -> impl Strategy<Value = KeyCase> {
                 Av1Frame { obus, seq: Some(seq) }
             }),
             vp9_key_strategy(),
-            prop::bool::weighted(0.3),
+            (prop::bool::weighted(0.3), prop_oneof![3 => Just(0u8), 1 => 1u8..5]),
         )
-            .prop_map(|(codec, width, height, fast_start, nals, lead_zeros, trail_zeros, av1, vp9, second_frame)| KeyCase {
+            .prop_map(|(codec, width, height, fast_start, nals, lead_zeros, trail_zeros, av1, vp9, (second_frame, rejected_first))| KeyCase {
                 codec,
                 width,
                 height,
@@ -432,6 +477,7 @@ fn key_strategy(codec: Option<u8>) -> impl Strategy<Value = KeyCase> {
                 av1,
                 vp9,
                 second_frame,
+                rejected_first,
             })
     })
 }
@@ -774,6 +820,7 @@ fn s_audio(_: Tier) -> BoxedStrategy<AudioCase> {
 
 pub fn def() -> PropertyDef {
     PropertyDef {
+        fuzz_targets: &["c07_av1"],
         id: "C07",
         level: "exploration",
         rule: "first keyframes built from NAL / OBU lists (any number, order and length of parameter-set and slice units, 3/4-byte start codes, \
